@@ -2202,10 +2202,15 @@ class unyt_array(np.ndarray):
          [8. 8.]] km*s**2
         """
         res_units = self.units * getattr(b, "units", NULL_UNIT)
-        ret = self.view(np.ndarray).dot(np.asarray(b), out=out) * res_units
-        if out is not None:
+        if out is None:
+            return self.view(np.ndarray).dot(np.asarray(b)) * res_units
+        # evaluate into the raw buffer: out still carries the units it had
+        # before the call, which must not enter the result
+        res = self.view(np.ndarray).dot(np.asarray(b), out=np.asarray(out))
+        if getattr(out, "units", None) is not None:
             out.units = res_units
-        return ret
+        ret_cls = unyt_quantity if np.ndim(res) == 0 else unyt_array
+        return ret_cls(np.asarray(res), res_units, bypass_validation=True)
 
     def take(self, indices, axis=None, out=None, mode="raise"):
         """method
